@@ -330,6 +330,8 @@ enum S {
     OnGosub(E, Vec<usize>),
     OnGoto(E, Vec<Vec<S>>),
     ExitFor(C),
+    /// `IF c THEN RETURN` inside a subroutine (possibly inside its FOR loops): abandons the frames above the return address
+    ReturnIf(C),
 }
 
 const VN: &[&str] = &["A", "B", "C", "D", "E"];
@@ -337,6 +339,7 @@ const LOOPV: &[&str] = &["I", "J", "K", "L"];
 const WN: &[&str] = &["W1", "W2", "W3", "W4", "W5"];
 
 struct Interp {
+    returning: bool,
     vars: Vec<i64>,
     loopv: Vec<i64>,
     out: String,
@@ -382,7 +385,7 @@ fn ctext(c: &C) -> String {
     }
 }
 
-/// returns Some(()) to continue, None when an enclosing FOR is to be left (ExitFor)
+/// `true` to continue; `false` when an enclosing construct is to be left: `it.returning` tells RETURN from ExitFor
 fn exec(ss: &[S], it: &mut Interp) -> bool {
     for s in ss {
         it.steps += 1;
@@ -416,6 +419,9 @@ fn exec(ss: &[S], it: &mut Interp) -> bool {
                 it.loopv[*v - 10] = *a;
                 loop {
                     if !exec(body, it) {
+                        if it.returning {
+                            return false; // RETURN out of the loop: the frame is abandoned with the subroutine
+                        }
                         break; // early exit: control continues after the loop
                     }
                     let nv = it.loopv[*v - 10] + st;
@@ -437,12 +443,14 @@ fn exec(ss: &[S], it: &mut Interp) -> bool {
             S::Gosub(k) => {
                 let b = it.subs[*k].clone();
                 exec(&b, it);
+                it.returning = false;
             }
             S::OnGosub(e, ks) => {
                 let x = ev(e, it);
                 if x >= 1 && (x as usize) <= ks.len() {
                     let b = it.subs[ks[x as usize - 1]].clone();
                     exec(&b, it);
+                    it.returning = false;
                 }
             }
             S::OnGoto(e, blocks) => {
@@ -455,6 +463,12 @@ fn exec(ss: &[S], it: &mut Interp) -> bool {
             }
             S::ExitFor(c) => {
                 if cv(c, it) {
+                    return false;
+                }
+            }
+            S::ReturnIf(c) => {
+                if cv(c, it) {
+                    it.returning = true;
                     return false;
                 }
             }
@@ -556,13 +570,16 @@ fn emit_stmts(ss: &[S], em: &mut Emit, sub_ref: &mut Vec<(usize, usize)>, exit_f
                 em.line(format!("IF {} THEN @EXIT", ctext(c)));
                 exit_fix.push(i);
             }
+            S::ReturnIf(c) => {
+                em.line(format!("IF {} THEN RETURN", ctext(c)));
+            }
         }
     }
 }
 
 fn contains_exit(ss: &[S]) -> bool {
     ss.iter().any(|s| match s {
-        S::ExitFor(_) => true,
+        S::ExitFor(_) | S::ReturnIf(_) => true,
         S::For(_, _, _, _, b, _) | S::IfSkip(_, b) | S::While(_, _, b) => contains_exit(b),
         S::OnGoto(_, bs) => bs.iter().any(|b| contains_exit(b)),
         _ => false,
@@ -631,7 +648,7 @@ fn gen_block(rng: &mut Rng, depth: usize, tag: &mut usize, loopvars: &mut Vec<us
                 v.push(S::IfSkip(c, body));
             }
             6 | 7 => {
-                if loopvars.len() < 4 {
+                if loopvars.len() < 3 {
                     let lv = 10 + loopvars.len();
                     let (a, b, st) = *rng.pick(&[(1i64, 3i64, 1i64), (3, 1, -1), (0, 4, 2), (5, 1, 1), (2, 2, 1), (1, 2, 1), (10, 0, -5)]);
                     loopvars.push(lv);
@@ -685,11 +702,23 @@ pub fn gen_c01<W: Write>(w: &mut W, tier: &str, seed: u64) {
         let mut tag = 0usize;
         let nsubs = rng.below(3);
         let mut wcount = 0usize;
-        let subs: Vec<Vec<S>> = (0..nsubs).map(|_| (0..1 + rng.below(2)).map(|_| gen_simple(&mut rng, &mut tag, &[])).collect()).collect();
+        let subs: Vec<Vec<S>> = (0..nsubs)
+            .map(|_| {
+                let mut b: Vec<S> = (0..1 + rng.below(2)).map(|_| gen_simple(&mut rng, &mut tag, &[])).collect();
+                if rng.chance(1, 2) {
+                    // a subroutine that leaves its own FOR loop with RETURN (loop variable L is reserved for subroutines)
+                    let upto = 2 + rng.below(3) as i64;
+                    let at = 1 + rng.below(upto as usize + 1) as i64;
+                    let inner = vec![gen_simple(&mut rng, &mut tag, &[13]), S::ReturnIf(C::Eq(E::V(13), E::N(at)))];
+                    b.push(S::For(13, 1, upto, 1, inner, rng.chance(1, 2)));
+                }
+                b
+            })
+            .collect();
         let mut lv = vec![];
         let main = gen_block(&mut rng, 2, &mut tag, &mut lv, nsubs, &mut wcount, false);
         // expected transcript by the reference interpreter
-        let mut it = Interp { vars: vec![0; 10], loopv: vec![0; 4], out: String::new(), subs: subs.clone(), steps: 0 };
+        let mut it = Interp { returning: false, vars: vec![0; 10], loopv: vec![0; 4], out: String::new(), subs: subs.clone(), steps: 0 };
         exec(&main, &mut it);
         if it.steps > 15000 || it.vars.iter().chain(it.loopv.iter()).any(|v| v.abs() > 30000) {
             continue;
